@@ -695,7 +695,7 @@ func init() {
 			}
 			runSeg(f[0], f[1], segs, nil, false)
 		}
-		if len(f) >= 3 && f[0] == "@req" {
+		if len(f) >= 3 && (f[0] == "@req" || f[0] == "seg1") {
 			var segs [][]byte
 			for _, h := range f[2:] {
 				segs = append(segs, unhx(h))
